@@ -170,22 +170,41 @@ theorem chain_matches_spec_partial (fl : Flags) (hd : fl.dotall = true) (hw : fl
 
 
 open YaraModel.ReVm YaraModel.ReEmit in
-/-- `vm_sound_partial`: soundness of the bytecode VM on emitted code, for the WHOLE hex fragment (bytes, `??` and nibble
-    masks, `~` negations, jumps `[n]` `[n-m]` with m < 65536, concatenation, alternatives nested to any depth — the ε-loop-free
-    fragment).  For ALL such patterns, ALL buffers and start positions, any nocase / dot-all flags, exhaustive or first-match
-    mode: every length the Lean model of `yr_re_exec` (validated against the C function on the real bytecode by the
-    correspondence run) reports on the code produced by the Lean model of `_yr_re_emit` (validated byte-for-byte against
-    `yr_re_ast_emit_code`) is a length the specification admits at that position.  The proof goes through an abstract machine
-    with the three states of a REPEAT_ANY fiber (arriving / waiting for a character / just consumed) and a continuation
-    language per instruction address.
-    Full statement aimed at (not yet proved): the same for backward code and for the fast matcher `yr_re_fast_exec`, and the
-    converse inclusion (completeness: every admissible length is reported in exhaustive mode). -/
-theorem vm_sound_partial (r : Re) (hf : Frag r) (hsz : clen r < 32000) (buf : Bytes) (start : Nat) (hst : start ≤ buf.size)
+/-- `vm_sound`: soundness of the bytecode VM on the emitted code of hex strings — with NO fragment restriction: `HexAst r`
+    is the set of ASTs hex_grammar.y builds (bytes, `??` and nibble masks, `~` negations, jumps `[n]` `[n-m]`,
+    concatenation, alternatives nested to any depth; a jump above 200 is split off as a chain link, the rest are REPEAT_ANY
+    instructions with 16-bit operands).  For ALL hex patterns whose code stays below the emitter's int16 jump range, ALL
+    buffers and start positions, any nocase / dot-all flags, exhaustive or first-match mode: every length the Lean model of
+    `yr_re_exec` (validated against the C function on the real bytecode by the correspondence run) reports on the code
+    produced by the Lean model of `_yr_re_emit` (validated byte-for-byte against `yr_re_ast_emit_code`) is a length the
+    specification admits at that position.  The proof goes through an abstract machine with the three states of a
+    REPEAT_ANY fiber (arriving / waiting for a character / just consumed) and a continuation language per machine state; it
+    is the instance for hex ASTs of the theorem for ALL well-formed expressions (Thm/C03 `vm_sound`).
+    Backward code: `vm_sound_backward` below.  Separate statements, not yet proved: the fast matcher `yr_re_fast_exec`,
+    runs entering the code at an atom's instruction, and the converse inclusion (completeness: every admissible length
+    is reported in exhaustive mode). -/
+theorem vm_sound (r : Re) (hx : HexAst r) (hsz : (emit false r 0).1.length < 32000) (buf : Bytes) (start : Nat) (hst : start ≤ buf.size)
     (fl : VmFlags) (hw : fl.wide = false) (hb : fl.backwards = false) (hsc : fl.scan = false) (fuel : Nat) (m : Int) (c : List Nat)
     (h : exec { code := (emitCode false r).toArray, entry := 0, buf := buf, start := start, fl := fl, syncFuel := fuel } = .done m c) :
     (∀ L, L ∈ c → Re.Matches (specFlags fl) buf r start (start + L)) ∧
     (0 ≤ m → Re.Matches (specFlags fl) buf r start (start + m.toNat)) :=
-  vm_sound_frag r hf hsz buf start hst fl hw hb hsc fuel m c h
+  vm_sound_wf r hx.wf hsz buf start hst fl hw hb hsc fuel m c h
+
+open YaraModel.ReVm YaraModel.ReEmit in
+/-- `vm_sound_backward`: the same for the BACKWARD code of a hex pattern (the bytes before the atom): run with
+    RE_FLAGS_BACKWARDS from `start`, every reported length L satisfies L ≤ start and the pattern matches buf[start - L, start).
+    For ALL hex ASTs, buffers and start positions (instance of Thm/C03 `vm_sound_backward`). -/
+theorem vm_sound_backward (r : Re) (hx : HexAst r) (hsz : (emit true r 0).1.length < 32000) (buf : Bytes) (start : Nat) (hst : start ≤ buf.size)
+    (fl : VmFlags) (hb : fl.backwards = true) (hsc : fl.scan = false) (fuel : Nat) (m : Int) (c : List Nat)
+    (h : exec { code := (emitCode true r).toArray, entry := 0, buf := buf, start := start, fl := fl, syncFuel := fuel } = .done m c) :
+    (∀ L, L ∈ c → L ≤ start ∧ Re.Matches (specFlagsG fl) buf r (start - L) start) ∧
+    (0 ≤ m → m.toNat ≤ start ∧ Re.Matches (specFlagsG fl) buf r (start - m.toNat) start) :=
+  vm_sound_bwd r hx.wf hsz buf start hst fl hb hsc fuel m c h
+
+open YaraModel.ReEmit in
+/-- instance: `41 ( 42 | ?3 44 ) [1-2] ~45` is a hex AST -/
+example : HexAst (.cat (.lit 0x41) (.cat (.alt (.lit 0x42) (.cat (.masked 0x03 0x0F) (.lit 0x44))) (.cat (.rangeAny 1 2 false) (.notLit 0x45)))) :=
+  .seq (.byte _) (.seq (.alt (.byte _) (.seq (.mask _ _) (.byte _))) (.seq (.jump 1 2 (by decide) (by decide)) (.notByte _)))
 
 open YaraModel.ReVm YaraModel.ReEmit in
 /-- instance: `41 ( 42 | ?3 44 ) [1-2] ~45` on `41 13 44 00 00 46`: the VM run on the emitted code reports lengths 6 and 5 -/
